@@ -137,6 +137,47 @@ func main() {
 		debugAff(p, parts[0], parts[1])
 		return
 	}
+	if *property == "all" {
+		// development aid (tools/refcheck.sh, tools/matrix.sh): one load, every check, one line per property
+		verifDirForNormalize = *verif
+		p, err := LoadProg(*repo, nil)
+		if err != nil {
+			fmt.Printf("ALL load-error %v\n", err)
+			os.Exit(1)
+		}
+		var ids []string
+		for k := range checks {
+			ids = append(ids, k)
+		}
+		sort.Strings(ids)
+		bad := 0
+		for _, id := range ids {
+			code := func() (code int) {
+				c := NewCtx(p, id, "quick", *verif)
+				c.OutDir = os.Getenv("VERIF_OUT")
+				c.Start = time.Now()
+				c.Quiet = true
+				defer func() {
+					if r := recover(); r != nil {
+						fmt.Printf("ALL %s PANIC %v\n", id, r)
+						code = 1
+					}
+				}()
+				checks[id](c)
+				return c.Finish(0)
+			}()
+			if code != 0 {
+				bad++
+				fmt.Printf("ALL %s ALARM\n", id)
+			} else {
+				fmt.Printf("ALL %s ok\n", id)
+			}
+		}
+		if bad > 0 {
+			os.Exit(1)
+		}
+		return
+	}
 	fn, ok := checks[*property]
 	if !ok {
 		fmt.Printf("error: no check for property %q\n", *property)
